@@ -124,6 +124,34 @@ func c14PathTo(t *tctx, role int, edges map[protocol.State][]c14Edge, target pro
 	return nil, false
 }
 
+// c14Cycle returns a shortest non-empty path from the initial state back to it.
+func c14Cycle(cfg protocol.ProtocolConfig, edges map[protocol.State][]c14Edge) ([]c14Edge, bool) {
+	type item struct {
+		st   protocol.State
+		path []c14Edge
+	}
+	seen := map[protocol.State]bool{}
+	var q []item
+	for _, e := range edges[cfg.InitialState] {
+		q = append(q, item{e.to, []c14Edge{e}})
+	}
+	for len(q) > 0 {
+		it := q[0]
+		q = q[1:]
+		if it.st == cfg.InitialState {
+			return it.path, true
+		}
+		if seen[it.st] || cfg.StateMap[it.st].Agency == protocol.AgencyNone {
+			continue
+		}
+		seen[it.st] = true
+		for _, e := range edges[it.st] {
+			q = append(q, item{e.to, append(append([]c14Edge(nil), it.path...), e)})
+		}
+	}
+	return nil, false
+}
+
 func c14LocalAgency(cfg protocol.ProtocolConfig, st protocol.State) bool {
 	a := cfg.StateMap[st].Agency
 	return (a == protocol.AgencyClient && cfg.Role == protocol.ProtocolRoleClient) ||
@@ -203,6 +231,14 @@ func RunC14(c *core.Ctx) {
 						cases = append(cases, c14case{t: t, role: role, state: s, timed: true, kind: "selfloop", path: path, out: &ed, factor: 0.33})
 						break
 					}
+				}
+			}
+			// the initial state is exempt from its timeout only until the first
+			// transition: once the conversation has come back to it, it is a timed
+			// state like any other (chain-sync Idle, keep-alive Client, ...)
+			if e0 := cfg.StateMap[cfg.InitialState]; (e0.Timeout > 0 || e0.TimeoutFunc != nil) && e0.Agency != protocol.AgencyNone {
+				if cyc, ok := c14Cycle(cfg, edges); ok {
+					cases = append(cases, c14case{t: t, role: role, state: cfg.InitialState, timed: true, kind: "stall", path: cyc, factor: 3.5})
 				}
 			}
 			// one chain per role
@@ -382,7 +418,11 @@ func runC14(c *core.Ctx, cs c14case, T time.Duration, r *core.Rand) {
 				return
 			}
 			if !fired {
-				c.Violation("C14:"+t.Name+":no-timeout:"+c14StateClass(cfg, cs.state), fmt.Sprintf("%s: state %s has a timeout (scaled to %v), nothing moved for %v, and no timeout error was reported", label, cs.state, T, stalled), wit(nil))
+				cls := c14StateClass(cfg, cs.state)
+				if cs.state == cfg.InitialState && len(cs.path) > 0 {
+					cls += ":re-entered-initial-state"
+				}
+				c.Violation("C14:"+t.Name+":no-timeout:"+cls, fmt.Sprintf("%s: state %s has a timeout (scaled to %v), nothing moved for %v, and no timeout error was reported", label, cs.state, T, stalled), wit(nil))
 				return
 			}
 			if d := ts.at.Sub(entered); d < T/2 {
